@@ -15,20 +15,41 @@ ASAN_ENV = dict(os.environ,
 
 class Result:
     """result of one driver command: .line (str or None), .crash (str stderr tail or None)"""
-    __slots__ = ('line', 'crash', 'status')
+    __slots__ = ('line', 'crash', 'status', 'cur')
 
-    def __init__(self, line=None, crash=None, status=None):
-        self.line, self.crash, self.status = line, crash, status
+    def __init__(self, line=None, crash=None, status=None, cur=None):
+        self.line, self.crash, self.status, self.cur = line, crash, status, cur
+
+
+def _read_cur(path):
+    try:
+        with open(path, 'rb') as f:
+            d = f.read()
+        if len(d) < 16:
+            return None
+        import struct
+        idx, n = struct.unpack('<qQ', d[:16])
+        return (idx, d[16:16 + n])
+    except OSError:
+        return None
 
 
 def run_driver(exe, lines, watchdog=10, env=None, timeout=None):
     """Feed `lines` to the driver; returns a list of Result, one per line. A crash is attributed to the
     first command without a result; the driver is restarted behind it."""
-    env = env or ASAN_ENV
+    env = dict(env or ASAN_ENV)
+    os.makedirs(os.path.join(build.BUILD, 'cur'), exist_ok=True)
+    import threading
+    curpath = os.path.join(build.BUILD, 'cur', 'cur-%d-%d' % (os.getpid(), threading.get_ident()))
+    env['VERIF_CUR'] = curpath
     results = []
     pos = 0
     n = len(lines)
     while pos < n:
+        try:
+            os.unlink(curpath)
+        except OSError:
+            pass
         inp = ('\n'.join(lines[pos:]) + '\n').encode()
         try:
             p = subprocess.run([exe, str(watchdog)], input=inp, stdout=subprocess.PIPE, stderr=subprocess.PIPE, env=env,
@@ -50,8 +71,12 @@ def run_driver(exe, lines, watchdog=10, env=None, timeout=None):
         if pos < n:
             if rc == 0:
                 raise RuntimeError('driver exited 0 but produced %d of %d results' % (len(outl), n - pos + len(outl)))
-            results.append(Result(crash=err.decode(errors='replace')[-6000:], status=rc))
+            results.append(Result(crash=err.decode(errors='replace')[-6000:], status=rc, cur=_read_cur(curpath)))
             pos += 1
+    try:
+        os.unlink(curpath)
+    except OSError:
+        pass
     return results
 
 
@@ -109,10 +134,67 @@ class Findings:
         matches if all key/values of one of its 'match' dicts are equal to the violation's."""
         for e in self.entries:
             for m in e.get('match', []):
-                if all(str(sig.get(k)) == str(v) for k, v in m.items()):
+                if all(self._one(sig, k, v) for k, v in m.items()):
                     self.hit.setdefault(e['id'], [0, e])[0] += 1
                     return e
         return None
+
+    @staticmethod
+    def _one(sig, k, v):
+        if k == 'feature':          # the case exercises this construct
+            return v in (sig.get('features') or [])
+        if k == 'not_feature':
+            return v not in (sig.get('features') or [])
+        if k == 'label_prefix':
+            return str(sig.get('label', '')).startswith(v)
+        if k == 'label_contains':
+            return v in str(sig.get('label', ''))
+        if k == 'syntax_prefix':
+            return str(sig.get('syntax', '')).startswith(v)
+        if k == 'detail_contains':
+            return v in str(sig.get('detail', ''))
+        if isinstance(v, list):
+            return sig.get(k) in v or str(sig.get(k)) in [str(x) for x in v]
+        return str(sig.get(k)) == str(v)
+
+    def replay_witnesses(self):
+        """every listed finding may carry witnesses (module + driver command + regex that recognises the failure);
+        they are replayed on every run so that the finding is still reported when its region is masked in the sweep"""
+        import re, shutil
+        from tools import corpus
+        jobs = []
+        for e in self.entries:
+            for i, w in enumerate(e.get('witnesses', [])):
+                jobs.append((e, i, w))
+        if not jobs:
+            return
+
+        def one(j):
+            e, i, w = j
+            wdir = os.path.join(build.BUILD, 'wit-%d' % os.getpid(), '%s-%d' % (e['id'], i))
+            try:
+                if w.get('kind', 'driver') == 'driver':
+                    g = build.gen_types(w['module'], w['types'], wdir, opts=w.get('opts', []))
+                    objs = build.drv_objects(corpus.DRV)
+                    exe = build.link(os.path.join(wdir, 'drv'), objs, g)
+                    r = run_driver(exe, [w['cmd']], watchdog=w.get('watchdog', 20))[0]
+                    text = (r.line or '') + '\n' + (r.crash or '')
+                else:
+                    r = build.run_asn1c(w['module'], wdir, opts=w.get('opts', []), mode=w.get('mode', '-P'))
+                    text = 'exit=%d\n' % r.returncode + r.stdout.decode(errors='replace')[:200000] + r.stderr.decode(errors='replace')[:20000]
+            except build.BuildError as ex:
+                text = 'BUILD-ERROR ' + str(ex)
+            finally:
+                shutil.rmtree(wdir, ignore_errors=True)
+            return e, bool(re.search(w['fails_if'], text, re.S)), text
+
+        with ThreadPoolExecutor(4) as ex:
+            for e, still, text in ex.map(one, jobs):
+                if still:
+                    self.hit.setdefault(e['id'], [0, e])[0] += 1
+                else:
+                    print('NOTE: a witness of known finding %s no longer fails (finding may have been repaired)' % e['id'])
+        shutil.rmtree(os.path.join(build.BUILD, 'wit-%d' % os.getpid()), ignore_errors=True)
 
     def report(self):
         for fid, (cnt, e) in sorted(self.hit.items()):
@@ -145,6 +227,7 @@ class Check:
 
     def finish(self, coverage, exhaustive=True):
         os.makedirs(EVID, exist_ok=True)
+        self.findings.replay_witnesses()
         self.findings.report()
         nv = len(self.violations)
         shown = 0
@@ -186,3 +269,41 @@ class Check:
 
 def hexs(b):
     return b.hex() if b else '-'
+
+
+import re as _re
+
+
+def crash_sig(text):
+    """(kind, function) of a crash report: sanitizer error kind / assertion / watchdog, and the first
+    library frame. Line numbers are deliberately not part of the identity."""
+    kind, func = 'crash', '?'
+    if 'WATCHDOG' in text or 'HARNESS TIMEOUT' in text:
+        kind = 'timeout'
+    m = _re.search(r'Assertion `(.*?)\' failed', text)
+    if m:
+        kind = 'assert'
+        m2 = _re.search(r': (\w+): Assertion', text)
+        if m2:
+            func = m2.group(1)
+    m = _re.search(r'runtime error: ([^\n]*)', text)
+    if m:
+        kind = 'ubsan:' + _re.sub(r'-?\d+', 'N', m.group(1))[:60]
+    m = _re.search(r'ERROR: AddressSanitizer: ([\w-]+)', text)
+    if m:
+        kind = 'asan:' + m.group(1)
+    if func == '?':
+        for fm in _re.finditer(r'#\d+ 0x[0-9a-f]+ in (\w+) (/\S+?):\d+', text):
+            if '/repo/' in fm.group(2) or '/gen/' in fm.group(2):
+                func = fm.group(1)
+                break
+        else:
+            if kind == 'asan:SEGV' and 'pc 0x000000000000' in text:
+                func = 'null_function_pointer'
+                for fm in _re.finditer(r'#\d+ 0x[0-9a-f]+ in (\w+) (/\S+?):\d+', text):
+                    if '/repo/' in fm.group(2):
+                        func = 'null_call_from:' + fm.group(1)
+                        break
+    if kind == 'asan:SEGV' and 'pc 0x000000000000' in text and not func.startswith('null'):
+        func = 'null_call_from:' + func
+    return kind, func
